@@ -411,6 +411,24 @@ def r3_aggr_flags(prog, res):
                 res.add("R3.aggregate_flag", "R3|src/exp2cxx/classes_type.c|AGGRprint_init|%s" % flag, f.where(c), ok,
                         "%s is emitted exactly under flags.%s" % (emitted, flag) if ok else
                         "%s is emitted under %s, not under flags.%s" % (emitted, conds[-1:] or "no condition", flag))
+                # ... and whenever its guards hold: no path from the entry to the exit avoids the emission except by taking the other
+                # branch of one of the conditions it stands under (an early `return` for aggregates without bounds skips the flags)
+                cfg = f.cfg
+                guards = {}
+                for cn, br in enclosing_conditions(f, c):
+                    for b, blk in cfg.blocks.items():
+                        if blk.get("tc") == cn["i"]:
+                            guards[b] = br
+                want = {b: (cfg.blocks[b]["s"][0] if br == "T" else cfg.blocks[b]["s"][1]) for b, br in guards.items() if len(cfg.blocks[b]["s"]) == 2}
+                ends = cfg.paths_avoiding((cfg.entry, -1), lambda nd, c=c: nd is c or nd["i"] == c["i"],
+                                          forbid_edge=lambda b, s2, want=want: b in want and s2 != want[b])
+                escaped = cfg.exit in ends
+                res.add("R3.aggregate_flag_always", "R3a|src/exp2cxx/classes_type.c|AGGRprint_init|%s" % flag, f.where(c), not escaped,
+                        "whenever flags.%s holds for a non-renamed aggregate the emission is reached (%d guard(s) mapped)" % (flag, len(want)) if not escaped else
+                        "a path reaches the end of AGGRprint_init with every guard of the %s emission satisfied and without emitting it: "
+                        "the flag of such an aggregate (e.g. LIST OF UNIQUE without a bound specification) is lost in the dictionary" % emitted)
+                if len(want) < 2:
+                    res.broke("R3a: the guards of the %s emission could not be mapped to branch blocks (%d)" % (emitted, len(want)))
     res.floor("R3", "aggregate flag emissions", n, 2)
 
 
